@@ -226,6 +226,9 @@ Opt(o, n) == Bit(o.opt, n) = 1
 OLock(o) == Opt(o, 0)   ORep(o) == Opt(o, 1)   ORepne(o) == Opt(o, 2)  OXacq(o) == Opt(o, 3)   OXrel(o) == Opt(o, 4)
 OShort(o) == Opt(o, 5)  OLong(o) == Opt(o, 6)  OModMR(o) == Opt(o, 7)  OModRM(o) == Opt(o, 8)  OVex3(o) == Opt(o, 9)
 OVex(o) == Opt(o, 10)   OEvex(o) == Opt(o, 11) ORex(o) == Opt(o, 12)
+OTaken(o) == Opt(o, 13) ONotTaken(o) == Opt(o, 14)
+(* emitter-level encoding options: bit 0 optimize-for-size, bit 1 predicted jumps (branch hints are only emitted when it is on) *)
+EPredictedJumps(o) == Bit(o.eo, 1) = 1
 
 Clause(f, o) ==
   LET b    == o.b
@@ -240,6 +243,7 @@ Clause(f, o) ==
       rmMem == \E j \in memJ : FO(j).fld = "rm"
       vexlike == p.kind \in {"V2", "V3", "X3", "E"}
       segWant == {SegByte(OO(j).sg - 1) : j \in {k \in memJ : OO(k).sg > 0 /\ ~(FO(k).mseg = "es") /\ ~(FO(k).mseg = "ds" /\ OO(k).sg = 4)}}
+      hintWant == IF f.jcc = 1 /\ EPredictedJumps(o) THEN (IF OTaken(o) THEN {62} ELSE IF ONotTaken(o) THEN {46} ELSE {}) ELSE {}    \* 3E taken, 2E not taken
       segHave == p.pfx \cap SegPfx
       esRedundant == IF \E j \in memJ : FO(j).mseg = "es" /\ OO(j).sg = 1 THEN {38} ELSE {}      \* explicit es: on the es:[zdi] operand
       implMem == {j \in memJ : FO(j).memreg # ""}
@@ -306,7 +310,8 @@ Clause(f, o) ==
   ELSE IF f.fw = 1 /\ ~(155 \in p.pfx) THEN "prefix-9B"
   ELSE IF p.a67 # want67 THEN "prefix-67"
   ELSE IF ~anyMemFld /\ f.a67 = 0 /\ p.a67 THEN "prefix-67"
-  ELSE IF segHave # segWant /\ segHave # segWant \cup esRedundant THEN "segment-prefix"
+  ELSE IF hintWant # {} /\ segHave # hintWant THEN "branch-hint-prefix"
+  ELSE IF hintWant = {} /\ segHave # segWant /\ segHave # segWant \cup esRedundant THEN "segment-prefix"
   \* ModRM fixed parts
   ELSE IF f.digit >= 0 /\ (p.reg # f.digit \/ p.R # 0 \/ p.R2 # 0) THEN "modrm-digit"
   ELSE IF f.rmfix >= 0 /\ p.rm # f.rmfix THEN "modrm-rm-fixed"
@@ -337,7 +342,7 @@ Clause(f, o) ==
 \* ---------------------------------------------------------------- verdict -----------------------------------
 ClauseOrder == <<"length", "longer-than-15", "prefix-kind", "duplicate-prefix", "evex-reserved-bits", "extension-bit-in-32-bit-mode", "opcode", "opcode-suffix", "pp-mm",
                  "w-bit", "vector-length", "legacy-prefix-before-vex", "prefix-66", "prefix-F2", "prefix-F3", "U-rep-prefix-not-allowed-by-row",
-                 "U-hle-prefix-not-allowed-by-row", "prefix-lock", "lock-needs-lockable-memory-destination", "prefix-9B", "prefix-67", "segment-prefix",
+                 "U-hle-prefix-not-allowed-by-row", "prefix-lock", "lock-needs-lockable-memory-destination", "prefix-9B", "prefix-67", "branch-hint-prefix", "segment-prefix",
                  "modrm-digit", "modrm-rm-fixed", "modrm-mod", "unused-R", "unused-XB", "unused-vvvv", "decoration-without-evex", "evex-aaa", "evex-z",
                  "U-evex-z-not-allowed-by-row", "U-evex-mask-not-allowed-by-row", "U-evex-gather-scatter-needs-a-mask", "evex-b", "U-er-sae-on-a-128-or-256-bit-form",
                  "U-sae-alone-on-a-rounding-capable-form", "evex-rounding",
